@@ -28,6 +28,29 @@ def run(ctx) -> None:
     ctx.rule("R3", "BUILD stays a string from read to write")
     ctx.rule("R4", "padding (< T -> + T, T a power of ten) dominates the successor")
 
+    # R3 (ordering side): a build id is a digit string whose order is numeric (and lexical only from four digits on): it is
+    # never ordered as text.  Any `<`, `<=`, `>`, `>=` with a `.bid` operand (or a local bound to one) outside int(...) is one.
+    n_cmp = 0
+    for modname in ("v2version", "v1version", "cli"):
+        for fn_ in prog.module(modname).functions.values():
+            bid_names = {t_.id for st_ in ast.walk(fn_.node) if isinstance(st_, ast.Assign) and isinstance(st_.value, ast.Attribute) and st_.value.attr == "bid"
+                         for t_ in st_.targets if isinstance(t_, ast.Name)}
+            for c_ in ast.walk(fn_.node):
+                if not (isinstance(c_, ast.Compare) and any(isinstance(o_, (ast.Lt, ast.LtE, ast.Gt, ast.GtE)) for o_ in c_.ops)):
+                    continue
+                operands = [c_.left] + list(c_.comparators)
+                texty = [o_ for o_ in operands if (isinstance(o_, ast.Attribute) and o_.attr == "bid") or (isinstance(o_, ast.Name) and o_.id in bid_names)]
+                if any(isinstance(o_, ast.Call) and unparse(o_.func) == "int" and o_.args and ((isinstance(o_.args[0], ast.Attribute) and o_.args[0].attr == "bid")
+                                                                                             or (isinstance(o_.args[0], ast.Name) and o_.args[0].id in bid_names)) for o_ in operands):
+                    n_cmp += 1
+                    ctx.ok("R3", f"{fn_.fq}: `{unparse(c_)[:50]}` orders the build id as a number")
+                for o_ in texty:
+                    n_cmp += 1
+                    ctx.bad("R3", f"{fn_.fq}: a build id is ordered as text", f"`{unparse(c_)[:70]}` compares the digit string itself: '99' > '1000' and '7' > '1008' as text - short ids are "
+                            f"padded (or refused) wrongly and their legitimate successor looks smaller", loc=fn_.loc(c_), witness={"bid": "98", "text order": "'98' < '1000' is False"},
+                            what=f"{fn_.fq}: build ids are ordered through int()")
+    ctx.notes["bid_order_comparisons"] = n_cmp
+
     inc = prog.function("v2version._incr_numeric")
     ctx.visit(inc.fq)
     cfg = cfgs.get(inc.fq)
